@@ -827,6 +827,29 @@ async fn scenario_fault(
                                     if da.as_ref() != Some(&want) || db.as_ref() != Some(&want) {
                                         obs.transport_bad.push(("complete_session_converges".into(), format!("after a complete session over in-memory pipes: initiator holds {:?} entries, acceptor {:?}, merge has {}", da.map(|d| d.len()), db.map(|d| d.len()), want.len())));
                                     }
+                                    // what each side reports as the heads it received: per author
+                                    // at least the newest entry that entered from the peer, at most
+                                    // the newest entry the peer holds
+                                    for (who, out_heads, mine, theirs) in [("initiator", &ao.heads_received, side_entries(0, variant), side_entries(1, variant)), ("acceptor", &bo.heads_received, side_entries(1, variant), side_entries(0, variant))] {
+                                        let mine_signed: Vec<_> = mine.iter().map(|s| s.signed()).collect();
+                                        let mut entered: std::collections::BTreeMap<[u8; 32], u64> = Default::default();
+                                        let mut offered: std::collections::BTreeMap<[u8; 32], u64> = Default::default();
+                                        for e in theirs.iter().map(|s| s.signed()) {
+                                            let a = e.author().to_bytes();
+                                            let t = offered.entry(a).or_insert(0);
+                                            *t = (*t).max(e.timestamp());
+                                            if want.contains(&e) && !mine_signed.contains(&e) {
+                                                let t = entered.entry(a).or_insert(0);
+                                                *t = (*t).max(e.timestamp());
+                                            }
+                                        }
+                                        for (a, newest_entered) in &entered {
+                                            let reported = out_heads.get(&iroh_docs::AuthorId::from(a));
+                                            if reported.map(|r| r < *newest_entered || r > offered[a]).unwrap_or(true) {
+                                                obs.transport_bad.push(("outcome_reports_received_heads".into(), format!("the {who} received entries of author {:02x}.. up to timestamp {} (the peer's newest: {}), its session outcome reports the head {:?}", a[0], newest_entered - crate::universe::T0, offered[a] - crate::universe::T0, reported.map(|r| r as i64 - crate::universe::T0 as i64))));
+                                            }
+                                        }
+                                    }
                                 }
                             }
                         }
@@ -845,6 +868,18 @@ async fn scenario_fault(
     let _ = ha.shutdown().await;
     let _ = hb.shutdown().await;
     (obs, frames.0, frames.1)
+}
+
+/// For C13: a complete, fault-free session between a real initiator (`run_alice`) and a real
+/// acceptor (`BobState::run`) over in-memory pipes; returns what is wrong with the heads the two
+/// sides report as received.
+pub fn received_heads_probe(variant: u8) -> Vec<String> {
+    let (obs, _, _) = with_local(scenario_fault(variant, 0, None, DEADLINE * 6));
+    let mut out: Vec<String> = obs.transport_bad.iter().filter(|(o, _)| o == "outcome_reports_received_heads").map(|(_, d)| d.clone()).collect();
+    if obs.hang || obs.both_ok != Some((true, true)) {
+        out.push(format!("MACHINERY: the probe session did not complete ({})", obs.sut_result));
+    }
+    out
 }
 
 /// (D) the exported transport-level entry points over real QUIC on loopback:
@@ -1298,6 +1333,10 @@ fn judge(obs: &Observed, what: &str) -> Vec<(&'static str, Value, String)> {
         bad.push(("store_actor_survives_the_session", json!({}), format!("{what}: the session returned ({}), but afterwards the store actor no longer answers (its thread died while processing a frame of the peer)", obs.sut_result)));
     }
     for (o, d) in &obs.transport_bad {
+        if o == "outcome_reports_received_heads" {
+            // C13's clause (what a node reports as received heads), probed from there
+            continue;
+        }
         let name: &'static str = match o.as_str() {
             "acceptor_error_names_peer_and_document" => "acceptor_error_names_peer_and_document",
             "finished_session_names_peer_and_document" => "finished_session_names_peer_and_document",
